@@ -50,7 +50,9 @@ func (node *tagCycleNode) Execute(ctx *ExecutionContext, writer TemplateWriter) 
 		t.value = val
 
 		if !t.node.silent {
-			writer.WriteString(val.String())
+			if err := t.node.print(ctx, item, val, writer); err != nil {
+				return err
+			}
 		}
 	} else {
 		// Regular call
@@ -64,10 +66,25 @@ func (node *tagCycleNode) Execute(ctx *ExecutionContext, writer TemplateWriter) 
 			ctx.Private[node.asName] = cycleValue
 		}
 		if !node.silent {
-			writer.WriteString(val.String())
+			if err := node.print(ctx, item, val, writer); err != nil {
+				return err
+			}
 		}
 	}
 
+	return nil
+}
+
+// print writes a cycle value the way {{ }} would: autoescaped unless marked safe.
+func (node *tagCycleNode) print(ctx *ExecutionContext, item IEvaluator, val *Value, writer TemplateWriter) *Error {
+	if ctx.Autoescape && !item.FilterApplied("safe") && !val.safe && (val.IsString() || val.isStringer()) {
+		escaped, err := filters["escape"](val, nil)
+		if err != nil {
+			return err
+		}
+		val = escaped
+	}
+	writer.WriteString(val.String())
 	return nil
 }
 
